@@ -83,23 +83,23 @@ void cv_all_cells(CellVec *c, int res) {
     for (int i = 0; i < 122; i++) {
         int64_t n;
         if (cellToChildrenSize(r0[i], res, &n)) continue;
-        H3Index *ch = calloc(n, sizeof(H3Index));
-        cellToChildren(r0[i], res, ch);
+        H3Index *ch = gb_alloc(n, sizeof(H3Index), 0);
+        cellToChildren(r0[i], res, ch); vt_overrun_check(ch, "cellToChildren", r0[i]);
         for (int64_t j = 0; j < n; j++) if (ch[j]) cv_push(c, ch[j]);
-        free(ch);
+        gb_free(ch);
     }
 }
 void cv_pentagon_strata(CellVec *c, int res, int k) {
     H3Index p[12];
     getPentagons(res, p);
     int64_t sz; maxGridDiskSize(k, &sz);
-    H3Index *d = calloc(sz, sizeof(H3Index));
+    H3Index *d = gb_alloc(sz, sizeof(H3Index), 0);
     for (int i = 0; i < 12; i++) {
         memset(d, 0, sz * sizeof(H3Index));
-        gridDisk(p[i], k, d);
+        gridDisk(p[i], k, d); vt_overrun_check(d, "gridDisk", p[i]);
         for (int64_t j = 0; j < sz; j++) if (d[j]) cv_push(c, d[j]);
     }
-    free(d);
+    gb_free(d);
 }
 uint64_t vt_random_cell(int res) {
     /* build the word directly from the documented layout */
@@ -299,7 +299,7 @@ uint64_t vt_mutate_word(uint64_t h) {
     }
 }
 
-#define GB_PAD 64
+#define GB_PAD 8192      /* 1024 cell slots either side: an overrun by a whole sub-tree level still lands in the canaries */
 /* The canary bytes rotate between allocations (0x5A.., all ones = -1 in every integer width, zero, 0x7F..): an out-of-bounds READ
  * whose effect depends on the value it finds (a sentinel comparison, a loop bound) then shows up as a difference or as a write. */
 typedef struct { size_t bytes; uint64_t magic; unsigned char before, after; } GbHdr;
@@ -322,5 +322,11 @@ int gb_ok(void *p) {
     unsigned char *e = (unsigned char *)p + h->bytes;
     for (int i = 0; i < GB_PAD; i++) if (e[i] != h->after) return 0;
     return 1;
+}
+/* a library function wrote outside the buffer of the documented size that a generator (not an observation) gave it: recorded as an
+ * event no trace specification can consume, like a crash inside the library */
+void vt_overrun_check(void *p, const char *f, uint64_t arg) {
+    if (gb_ok(p) || !vt_out) return;
+    fprintf(vt_out, "{\"e\":\"Overrun\",\"f\":\"%s\",\"arg\":", f); vt_word(arg); fputs(",\"how\":\"wrote outside a buffer of the documented size\"}\n", vt_out);
 }
 void gb_free(void *p) { if (p) free((unsigned char *)p - GB_PAD - sizeof(GbHdr)); }
